@@ -816,6 +816,29 @@ pub fn run(tier: Tier, totals: &mut Totals) {
 
 /// Sizes far beyond the search bound: collections with hundreds of items and hundreds of live handles.
 fn scale(tier: Tier, totals: &mut Totals) {
+    // joins of items and separators outside ASCII (the joined text is exactly the items with the
+    // separator between them, whatever the bytes)
+    {
+        let item_sets: [&[&str]; 5] = [&["é", "日本", "x"], &["x"], &["😀"], &["a", "", "é"], &["日", "本", "語", "é"]];
+        let seps = [",", "→", "é ", "→→", "", "😀", ", "];
+        for items in item_sets {
+            for sep in seps {
+                let mut text = String::from("a = array\n");
+                for it in items {
+                    text.push_str(&crate::render::line(None, "array_push", &["${a}", it]));
+                    text.push('\n');
+                }
+                text.push_str(&crate::render::line(Some("joined"), "array_join", &["${a}", sep]));
+                text.push_str("\nlen = array_length ${a}\n");
+                crate::util::scale_case_totals(
+                    totals,
+                    &format!("join-non-ascii items {:?} separator {:?}", items, sep),
+                    &text,
+                    &[("joined", Some(items.join(sep))), ("len", Some(items.len().to_string()))],
+                );
+            }
+        }
+    }
     let sizes: Vec<u64> = tier.pick(vec![10, 70, 300], vec![10, 70, 300, 1000, 3000]);
     for &n in &sizes {
         let tri = (n * (n + 1) / 2).to_string();
